@@ -207,7 +207,10 @@ def b_terms(job):
             events.append({"e": "mkerr", "op": op, "args": [items[a] for a in args], "err": "sort of result differs: %s vs %s" % (tb.sort(res), s)})
             continue
         key = [xs.get(a, -1) for a in args]
-        if op in COMM:
+        # the property asks for order-insensitivity only where the constructor normalises the order: Logic::mkBinaryEq
+        # does not for Boolean arguments (iff goes through the Boolean-operator branch of mkFun, which keeps the order)
+        bool_eq = op in ("=", "distinct") and args and tb.sort(items[args[0]]) == BOOL
+        if op in COMM and not bool_eq:
             key = sorted(key)
         if op == "num":
             key = [tb.rec(ref)["n"] % 1000003, tb.rec(ref)["d"] % 1000003, 0 if tb.sort(ref) == INT else 1]
